@@ -233,18 +233,18 @@ def gen(rng, tier):
     depth = 4 if tier == "quick" else 5
     for n in range(1, depth + 1):
         for word in itertools.product(range(len(ALPHABET)), repeat=n):
-            if n == depth and rng.random() > (0.02 if tier == "quick" else 0.2):
+            if n == depth and rng.random() > (0.02 if tier == "quick" else 0.01):
                 continue
-            if n == depth - 1 and tier == "quick" and rng.random() > 0.3:
+            if n == depth - 1 and rng.random() > (0.3 if tier == "quick" else 0.5):
                 continue
             ops = [o for a in word for o in ALPHABET[a]]
             ops += [["snap"], ["adv", 1], ["run"], ["snap"], ["timeout"], ["adv", 3], ["run"], ["snap"]]
             cases.append({"k": 1, "ops": ops, "bodies": EXH_BODIES if word[0] % 2 == 0 else []})
-    for _ in range(200 if tier == "quick" else 10000):
+    for _ in range(200 if tier == "quick" else 3000):
         cases.append(rand_case(rng, rng.randrange(5, 70)))
-    for _ in range(50 if tier == "quick" else 2000):       # negative reset()/delay() arguments
+    for _ in range(50 if tier == "quick" else 600):       # negative reset()/delay() arguments
         cases.append(rand_case(rng, rng.randrange(5, 40), neg=True))
-    for _ in range(12 if tier == "quick" else 600):
+    for _ in range(12 if tier == "quick" else 120):
         cases.append(compaction_case(rng))
     return cases
 
@@ -327,7 +327,7 @@ SPEC = Spec(
     model_equal=lambda c, impl_obs, model_obs: digest(impl_obs) == model_obs,
     nontrivial=lambda c, o: "(r" in o,
     histogram=histogram,
-    rule="every word of length <= 4 (quick: length 3 sampled 30%, length 4 sampled 2%) / <= 5 (thorough, longest 20%) "
+    rule="every word of length <= 4 (quick: length 3 sampled 30%, length 4 sampled 2%) / <= 5 (thorough, length 4 50%, length 5 1%) "
          "over an 11-letter alphabet {callLater 0/1/2, advance 1 + iteration, iteration, cancel #0, reset #1 +1, "
          "reset #0 +0, delay #0 +1, delay #1 -1, timeout()} with and without a fixed table of call bodies, each followed "
          "by snapshots, two iterations and a timeout(); random histories of 5-70 operations with random body tables "
